@@ -10,7 +10,7 @@ import warnings
 
 import numpy as np
 
-from .. import common, gen_all, fits
+from .. import common, gen_all, fits, m1
 from ..common import coq_string
 
 SITE = "nanite.cli.profile"
@@ -148,6 +148,30 @@ def store_sequences(run, exprs, descr):
                 ops.append("PNew")
                 results.append("Ok None")
                 hist.append("new")
+            if rng.random() < 0.15:
+                # a value JSON cannot encode: refused, nothing changes
+                k = rng.choice(["range_x", "segment", "weight_cp",
+                                "fit param E value", "fit param nu min"])
+                bad = rng.choice(["array", "int64", "set", "bytes"])
+                v = {"array": np.array([0.0, 1e-6]), "int64": np.int64(1),
+                     "set": {1, 2}, "bytes": b"x"}[bad]
+                before_txt = path.read_text()
+                ops.append(f"PSetBad {cs(k)}")
+                hist.append(["set-unencodable", k, bad, which])
+                try:
+                    objs[which][k] = v
+                    results.append("Ok None")
+                except (ValueError, TypeError) as e:
+                    results.append("Err " + type(e).__name__)
+                if path.read_text() != before_txt:
+                    run.failing(SITE, f"store:{i}:refused-write",
+                                f"after {hist}: the refused write of an "
+                                f"unencodable value ({bad}) to {k!r} changed "
+                                "the profile file (now "
+                                f"{path.read_text()[-60:]!r})",
+                                payload={"kind": "store", "history": hist},
+                                theorem="C19_refused_write_keeps")
+                    path.write_text(before_txt)
         final = {k: jtxt(v) for k, v in json.loads(path.read_text()).items()}
         # direct statement: a NEW object returns the last value set
         fresh = profile.Profile(path)
@@ -343,6 +367,205 @@ def legacy_cases(run):
                         payload={"kind": "legacy", "lines": lines},
                         theorem="C19 (legacy = JSON)")
         shutil.rmtree(d, ignore_errors=True)
+
+
+# --------------------------------------------------------------------------
+# 3b. the legacy parser against its Coq model (Model/Legacy.v)
+# --------------------------------------------------------------------------
+LEGACY_HEAD = """From Coq Require Import List String Ascii Bool Arith.
+From NV Require Import Base.Exn Model.Legacy.
+Import ListNotations.
+Definition L (l : list nat) : str := map ascii_of_nat l.
+Definition tab_b (t : list (str * bool)) (s : str) : bool :=
+  match find (fun e => str_eqb (fst e) s) t with Some e => snd e | None => false end.
+Definition tab_s (t : list (str * str)) (s : str) : str :=
+  match find (fun e => str_eqb (fst e) s) t with Some e => snd e | None => s end.
+Fixpoint strs_eqb (a b : list str) : bool :=
+  match a, b with
+  | [], [] => true
+  | x :: s, y :: t => str_eqb x y && strs_eqb s t
+  | _, _ => false
+  end.
+(* numbers are compared through the oracle's canonical text (repr of the parsed number) *)
+Definition val_eqb (fl il : str -> str) (v e : lval) : bool :=
+  match v, e with
+  | LBool a, LBool b => Bool.eqb a b
+  | LFloat t, LFloat r => str_eqb (fl t) r
+  | LInt t, LInt r => str_eqb (il t) r
+  | LStr a, LStr b => str_eqb a b
+  | LFloats l, LFloats r => strs_eqb (map fl l) r
+  | LStrs l, LStrs r => strs_eqb l r
+  | _, _ => false
+  end.
+Fixpoint ents_eqb (fl il : str -> str) (a b : list (str * lval)) : bool :=
+  match a, b with
+  | [], [] => true
+  | (k, v) :: s, (k', e) :: t => str_eqb k k' && val_eqb fl il v e && ents_eqb fl il s t
+  | _, _ => false
+  end.
+Definition legacy_agrees (kinds : list (str * kind)) (isf isi : list (str * bool))
+    (fl il : list (str * str)) (text : str) (expected : res (list (str * lval))) : bool :=
+  match load_legacy (tab_b isf) (tab_b isi) kinds (split_lf text), expected with
+  | Ok a, Ok b => ents_eqb (tab_s fl) (tab_s il) a b
+  | Err e, Err f => exn_eqb e f
+  | _, _ => false
+  end.
+"""
+
+
+def _cl(s):
+    """Coq literal of a text (list of character codes)"""
+    return "(L [" + "; ".join(str(b) for b in s.encode("ascii")) + "])"
+
+
+def _isnum(fn, t):
+    try:
+        return True, repr(fn(t))
+    except ValueError:
+        return False, ""
+
+
+def legacy_kinds():
+    import numbers
+    from nanite.cli import profile
+    out = []
+    for k, d in profile.DEFAULTS.items():
+        kind = ("KList" if isinstance(d, list) else "KStr" if isinstance(d, str)
+                else "KInt" if isinstance(d, numbers.Integral) else "KOther")
+        out.append(f"({_cl(k)}, {kind})")
+    return "[" + "; ".join(out) + "]"
+
+
+def legacy_text(rng):
+    """a mostly valid old-format profile, with the deviations old files and
+    hand edits show: spacing, blank lines, repeated keys, the segment words,
+    capitalised booleans, and (a separate stream) malformed lines"""
+    sp = lambda: rng.choice(["", " ", "  ", "\t"])
+    keys = {
+        "model_key": ["hertz_para", "sneddon_spher_approx", "hertz cone"],
+        "preprocessing": ["compute_tip_position",
+                          "compute_tip_position,correct_force_offset",
+                          "compute_tip_position,correct_force_offset,"
+                          "correct_tip_offset", "1,correct_tip_offset",
+                          "a,2"],
+        "range_type": ["absolute", "relative cp"],
+        "range_x": ["0,0", "0.0,0.0", "-1e-06,2.5e-06", " -2e-6 , 1e-6", "0,1,2"],
+        "segment": ["0", "1", "approach", "retract", "Approach", " 1"],
+        "weight_cp": ["5e-07", "0", "0.0", "1e-6", "inf"],
+        "rating regressor": ["Extra Trees", "SVR (RBF kernel)"],
+        "rating training set": ["zef18", "/some/path"],
+    }
+    lines = []
+    for k, dom in keys.items():
+        if rng.random() < 0.75:
+            lines.append(f"{sp()}{k}{sp()}={sp()}{rng.choice(dom)}{sp()}")
+        if rng.random() < 0.08:
+            lines.append(rng.choice(["", "   ", "\t"]))
+    for p in ["E", "R", "nu", "contact_point"]:
+        if rng.random() < 0.4:
+            lines.append(f"fit param {p} value{sp()}={sp()}"
+                         + rng.choice(["3000.0", "1e-05", "0.5", "0", "-1.5e-7",
+                                       " 12"]))
+            lines.append(f"fit param {p} vary{sp()}={sp()}"
+                         + rng.choice(["True", "False", "true", "TRUE", "yes",
+                                       "0", ""]))
+    rng.shuffle(lines)
+    if rng.random() < 0.25 and lines:          # a key given twice: last wins
+        k = rng.choice(["segment", "weight_cp", "model_key"])
+        lines.append(f"{k} = " + rng.choice(keys[k]))
+    mal = rng.random()
+    if mal < 0.35:                             # the malformed stream
+        lines.insert(rng.randrange(len(lines) + 1), rng.choice([
+            "no equal sign here", "unknown_key = 1", "weight_cp = abc",
+            "segment = 0.5", "segment = up", "range_x = 1", "range_x = 1,b",
+            "range_x = 1,2,c", "fit param E value = x", "preprocessing = ",
+            "preprocessing_options = {}", "= 3", "model_key = a = b",
+            "range_x = ,", "fit param E other = 1", "fit param vary = no"]))
+    eol = "\r\n" if rng.random() < 0.1 else "\n"
+    return eol.join(lines) + (eol if rng.random() < 0.8 else "")
+
+
+def legacy_model_cases(run):
+    from nanite.cli import profile
+    rng = run.rng
+    n = 120 if run.tier == "quick" else 1500
+    kinds = legacy_kinds()
+    exprs, descr = [], []
+    d = scratch("legacy-model")
+    for i in range(n):
+        text = legacy_text(rng)
+        path = d / f"p{i}.cfg"
+        path.write_bytes(text.encode("ascii"))
+        pf = profile.Profile.__new__(profile.Profile)
+        pf.path = path
+        try:
+            got = pf.load_legacy()
+            out = "ok"
+        except BaseException as e:
+            if isinstance(e, (KeyboardInterrupt, SystemExit)):
+                raise
+            got, out = None, type(e).__name__
+        run.case({"legacy-text": text}, kind="legacy-model-" + out,
+                 nontrivial=out == "ok" and bool(got))
+        # oracle tables for every token the model may hand to float() / int()
+        toks = set()
+        for line in text.replace("\r\n", "\n").split("\n"):
+            if "=" in line:
+                v = line.split("=", 1)[1].strip()
+                toks.add(v)
+                toks.update(v.split(","))
+        toks.update(["0", "1"])
+        isf, isi, fl, il = [], [], [], []
+        for t in sorted(toks):
+            okf, rf = _isnum(float, t)
+            oki, ri = _isnum(int, t)
+            isf.append(f"({_cl(t)}, {str(okf).lower()})")
+            isi.append(f"({_cl(t)}, {str(oki).lower()})")
+            if okf:
+                fl.append(f"({_cl(t)}, {_cl(rf)})")
+            if oki:
+                il.append(f"({_cl(t)}, {_cl(ri)})")
+        if got is None:
+            exp = f"(Err {m1.exn_coq(out)})"
+        else:
+            ents = []
+            for k, v in got.items():
+                if isinstance(v, bool):
+                    cv = f"LBool {str(v).lower()}"
+                elif isinstance(v, float):
+                    cv = f"LFloat {_cl(repr(v))}"
+                elif isinstance(v, int):
+                    cv = f"LInt {_cl(repr(v))}"
+                elif isinstance(v, str):
+                    cv = f"LStr {_cl(v)}"
+                elif isinstance(v, list) and v and all(
+                        isinstance(x, float) for x in v):
+                    cv = ("LFloats [" + "; ".join(_cl(repr(x)) for x in v)
+                          + "]")
+                elif isinstance(v, list):
+                    cv = "LStrs [" + "; ".join(_cl(str(x)) for x in v) + "]"
+                else:
+                    cv = "LStr " + _cl("<unexpected type>")
+                ents.append(f"({_cl(k)}, {cv})")
+            exp = "(Ok [" + "; ".join(ents) + "])"
+        tb = lambda l: "[" + "; ".join(l) + "]"
+        exprs.append(f"legacy_agrees {kinds} {tb(isf)} {tb(isi)} {tb(fl)} "
+                     f"{tb(il)} {_cl(text)} {exp}")
+        descr.append(repr(text) + " -> " + out)
+        # direct statements on what loaded (the types the command line
+        # relies on; a repeated key: the last line wins)
+        if got is not None:
+            for k, v in got.items():
+                if k.startswith("fit param") and k.endswith("vary") \
+                        and not isinstance(v, bool):
+                    run.failing(SITE, f"legacy-typed:{i}", f"legacy text "
+                                f"{text!r}: {k} loads as {v!r}, not a bool",
+                                payload={"kind": "rerun"},
+                                theorem="C19_legacy_typed")
+        path.unlink()
+    fits.eval_bool_cases(run, "c19_legacy", exprs, descr, head=LEGACY_HEAD,
+                         chunk=40)
+    shutil.rmtree(d, ignore_errors=True)
 
 
 # --------------------------------------------------------------------------
@@ -752,6 +975,10 @@ def check(run):
     common.prove(run, "C19")
     run.trusted = [
         "Coq 8.16.1 kernel + vm_compute (closed under the global context)",
+        "coq/Model/Legacy.v (the old key = value parser) tied by loading "
+        "generated old-format texts (valid, hand-edited, malformed) with the "
+        "real load_legacy and evaluating the model on the same characters, "
+        "float() / int() handed in as tables of the tokens of each text",
         "coq/Model/Profile.v tied by replaying random set/get/new-object "
         "histories, get_fit_params calls and every answer given to the "
         "scripted setup prompts (range type, menus, preprocessing) in Coq",
@@ -764,11 +991,15 @@ def check(run):
         "float prompts are only given texts float() accepts (other texts "
         "make setup_profile raise: not an accepted answer)",
         "argparse and the TIFF output are outside the model",
+        "legacy texts: ASCII only (str.strip() also strips non-ASCII white "
+        "space, which the byte-level model does not know); float() / int() "
+        "are oracles of the legacy theorems",
     ]
     exprs, descr = [], []
     store_sequences(run, exprs, descr)
     fit_param_cases(run, exprs, descr)
     legacy_cases(run)
+    legacy_model_cases(run)
     setup_cases(run, exprs, descr)
     batch_cases(run)
     fits.eval_bool_cases(run, "c19_profile", exprs, descr, head=HEAD, chunk=40)
@@ -777,7 +1008,7 @@ def check(run):
                 "over every profile key (valid and invalid) compared with the "
                 "Coq store and with a fresh object; get_fit_params for every "
                 "registered model with random stored entries; legacy vs JSON "
-                "profiles; scripted runs of the interactive setup (each prompt "
+                "profiles; generated old-format texts vs the Coq parser; scripted runs of the interactive setup (each prompt "
                 "skipped, answered, or answered wrongly first) with every "
                 "accepted answer compared with what is stored and the "
                 "resulting profile handed to the batch fit; statistics file "
